@@ -214,6 +214,11 @@ def gen_sdf(rng, a, edge=False):
                         for e in {'plain': [None], 'pos': ['pos'], 'neg': ['neg'], 'both': ['pos', 'neg'], 'plain+pos': [None, 'pos']}[mode]:
                             ts = [gen_triple(rng) for _ in range(rng.choice([1, 2, 2, 2]))]
                             es.append(('IOPATH', i, p, e, o, ts))
+            if es and rng.random() < 0.3:
+                # the same path annotated again later (other, overlapping entries in between): entries apply in file order, the last wins
+                for _ in range(rng.randint(1, 2)):
+                    e = rng.choice(es)
+                    es.append(e[:5] + ([gen_triple(rng) for _ in range(rng.choice([1, 2]))],))
             if rng.random() < 0.3:
                 rng.shuffle(es)
         per_inst.append(es)
